@@ -6,6 +6,7 @@ c14_gone  a module (c14_gone_src/c14_gone.py, not on sys.path) imported once by 
           its classes unimportable, so records written with them load as ZODB.broken.PersistentBroken
           placeholders; `importable_gone()` makes it importable again without importing it.
 """
+import copyreg
 import importlib
 import os
 import sys
@@ -29,6 +30,71 @@ class NodeNA(Persistent):
 
     def __getnewargs__(self):
         return self.__dict__.get('_v_na', ())
+
+
+INIT_CALLS = [0]
+
+
+class NodeInit(Persistent):
+    """__init__ needs an argument and has a side effect: loading must never run it"""
+
+    def __init__(self, required):
+        INIT_CALLS[0] += 1
+        self.required = required
+
+
+class NodeTupleState(Persistent):
+    """__getstate__ does not return a dict"""
+
+    def __getstate__(self):
+        return (dict((k, v) for k, v in self.__dict__.items() if not k.startswith(('_p_', '_v_'))),)
+
+    def __setstate__(self, state):
+        self.__dict__.clear()
+        self.__dict__.update(state[0])
+
+
+class NodeSlots(Persistent):
+    """no __dict__: the state is (None, {slot: value})"""
+    __slots__ = ('s', 'f0', 'f1', 'f2', 'f3', 'g', 'v')
+
+
+class NodeNAEx(Persistent):
+    """__getnewargs_ex__ (ZODB looks at __getnewargs__ only)"""
+
+    def __getnewargs_ex__(self):
+        return ((), {})
+
+
+class NodeRes(Persistent):
+    """resolves write conflicts (the storage re-pickles the resolved state, references included)"""
+
+    def _p_resolveConflict(self, old, saved, new):
+        return new
+
+
+class Plain:
+    """non-persistent, pickled by value inside its holder's record"""
+
+
+class PlainSlots:
+    __slots__ = ('a', 'b')
+
+
+class PlainReduce:
+    def __init__(self, x, y):
+        self.x, self.y = x, y
+
+    def __reduce__(self):
+        return (PlainReduce, (self.x, self.y))
+
+
+class PlainCopyreg:
+    def __init__(self, x, y):
+        self.x, self.y = x, y
+
+
+copyreg.pickle(PlainCopyreg, lambda o: (PlainCopyreg, (o.x, o.y)))
 
 
 class NodeNASub(NodeNA):
